@@ -287,6 +287,9 @@ def _slices(n):
     if n >= 2:
         out.append(("1:", slice(1, None), list(range(1, n))))
         out.append(("::2", slice(None, None, 2), list(range(0, n, 2))))
+        # selections that name the rows out of time order: the new object is time-ordered all the same
+        out.append(("::-1", slice(None, None, -1), list(range(n - 1, -1, -1))))
+        out.append(("index[n-1,0]", symnp.SymArray(symnp._obj([n - 1, 0]), symnp._I8), [n - 1, 0]))
     if n >= 3:
         out.append(("mask", symnp.SymArray(symnp._obj([True] + [False] * (n - 2) + [True]), symnp._B1), [0, n - 1]))
     return out
@@ -574,9 +577,12 @@ def _replay_once(cand, fill):
         if (d.t_ref is None) != (c.t_ref is None) or (d.t_ref is not None and not np.isclose(c.t_ref.tcb.mjd, d.t_ref.tcb.mjd, atol=1e-9)) or not np.isclose(c._t_ref_bmjd, d._t_ref_bmjd, atol=1e-9):
             bad.append("copy() changed the reference epoch: %r -> %r" % (d.t_ref, c.t_ref))
         n = len(td)
-        sl = [slice(0, 1)] + ([slice(1, None), slice(None, None, 2)] if n >= 2 else [])
+        sl = [slice(0, 1)] + ([slice(1, None), slice(None, None, 2), slice(None, None, -1), np.array([n - 1, 0])] if n >= 2 else [])
         for s in sl:
-            same_obs(d[s], td, rd, ed, np.arange(n)[s], "slice %s" % (s,))
+            try:
+                same_obs(d[s], td, rd, ed, np.arange(n)[s], "subset %s" % (s,))
+            except Exception as e:
+                bad.append("subset %s raised %s: %s" % (s, type(e).__name__, str(e)[:120]))
         if n >= 3:
             # boolean-mask and index-array subsets (same rows as in the symbolic shapes)
             mask = np.array([True] + [False] * (n - 2) + [True])
